@@ -263,7 +263,7 @@ def conds(tier):
     q = tier == "quick"
     cs = []
     R = 4
-    plans = [(3, False), (4, False), (3, True)] if q else [(3, False), (4, False), (5, False), (3, True), (4, True), (6, False)]
+    plans = [(3, False), (4, False), (3, True)] if q else [(3, False), (4, False), (5, False), (3, True), (4, True)]
     for (V, mk) in plans:
         ps = [P("r%d" % i, "int", 0, R) for i in range(1, V + 1)] + [P("c%d" % i, "bool") for i in range(1, V)]
         ps += [P("opt", "bool"), P("same", "bool")]
